@@ -2,6 +2,7 @@ import Tickit.Proof.EvLoopWF
 import Tickit.Proof.EvLoopOnceB
 import Tickit.Proof.EvLoopOnceIter
 import Tickit.Gen.EvLoop
+import Tickit.Proof.EvLoopUnbind
 /-
   C17 — Timers and deferred callbacks run once, on time, in order, unless cancelled.
 
@@ -432,5 +433,40 @@ example : ((runOps .repaired [.act (.timer 0 0 0), .act (.timerAt 1 999 0 0), .a
     /repo: known/C17.json, known/C18.json list them as fixed; the statement for all histories is not proved). -/
 def no_ub_full : Prop :=
   ∀ (ops : List Op), (∀ w, (runOps .repaired ops).status ≠ .ub w)
+
+/-! ### unbind handlers that act (Model/EvLoopUnbind.lean): registered from inside a notification, still runs -/
+
+/-- Once the unbind handler of a cancelled timer / deferred callback has returned, `tickit_watch_cancel` never writes
+    the queue again: what the handler queued — wherever it landed, also immediately in front of the place the
+    cancelled watch had — is still queued when the cancel returns (every state, every handler). -/
+theorem cancel_keeps_what_unbind_handler_queued (ub : List Beh) (st : St) (a : Nat) (w : Watch) (l : List Nat) :
+    (w.type = .timer → (cancelFoundU ub st a w l).timers = (cancelUnlinkedU ub st a w l).timers) ∧
+    (w.type = .later → (cancelFoundU ub st a w l).laters = (cancelUnlinkedU ub st a w l).laters) :=
+  ⟨cancel_keeps_what_handler_queued_timers ub st a w l, cancel_keeps_what_handler_queued_laters ub st a w l⟩
+
+/-- The watch is out of its queue before the handler runs. -/
+theorem cancel_unlinks_before_unbind_handler (ub : List Beh) (st : St) (a : Nat) (w : Watch) (l : List Nat)
+    (ht : w.type = .timer) (hu : unbindActs ub (st.getW a).slot = []) :
+    (cancelUnlinkedU ub st a w l).timers = l.erase a := cancel_unlinks_before_handler ub st a w l ht hu
+
+/-- Non-vacuity: a timer the handler registers between the cancelled timer's predecessor and the cancelled timer is
+    queued, runs in deadline order; a BIND_FIRST deferred callback queued while the cancelled one is the head runs. -/
+theorem unbind_handler_registrations_run :
+    (applyCancelU ubBetween probeUnbindBetween 1).timers = [2, 5, 4] ∧
+    cbsOf ([Op.clock 10000, .tick].foldl applyOp (applyCancelU ubBetween probeUnbindBetween 1)) =
+      [.cb 0 3 .none, .cb 5 3 .none, .cb 2 3 .none] ∧
+    cbsOf ([Op.tick].foldl applyOp (applyCancelU [⟨0, 0, [.later 5 1]⟩] probeUnbindFirst 0)) =
+      [.cb 5 3 .none, .cb 1 3 .none] :=
+  ⟨unbind_handler_timer_between_is_queued.1, unbind_handler_timer_between_runs, unbind_handler_later_first_runs.2⟩
+
+/-- Open: the full statement for active unbind handlers — every timer / deferred callback a handler registers runs
+    exactly once in a later iteration — for all histories (the exactly-once theorems above are about histories whose
+    notifications are passive; Model/EvLoopUnbind.lean is tied to the code by differential execution). -/
+def unbind_handler_registration_runs_once : Prop :=
+  ∀ (ub : List Beh) (st : St) (k n : Int) (sec usec : Int) (f : Nat),
+    st.isOk = true → unbindActs ub k = [.timerAt n sec usec f] → findSlot st n = none → 0 ≤ n → n < MAXW → 0 ≤ usec →
+    (∃ r, findSlot st k = some r ∧ st.timers.contains r.handle = true ∧ (st.getW r.handle).flags &&& BIND_UNBIND ≠ 0 ∧
+          (st.getW r.handle).slot = k) →
+    (doCancelU ub st k).timers.contains st.heap.length = true
 
 end Tickit.Props.C17
